@@ -15,6 +15,7 @@ class Filter(base.Filter):
 
     def __iter__(self):
         preserve = 0
+        after_space = False  # the text just before this token ends in a space
         for token in base.Filter.__iter__(self):
             type = token["type"]
             if type == "StartTag" \
@@ -26,10 +27,24 @@ class Filter(base.Filter):
 
             elif not preserve and type == "SpaceCharacters" and token["data"]:
                 # Test on token["data"] above to not introduce spaces where there were not
+                if after_space:
+                    # The run of spaces began in the previous token
+                    continue
                 token["data"] = " "
 
             elif not preserve and type == "Characters":
-                token["data"] = collapse_spaces(token["data"])
+                data = collapse_spaces(token["data"])
+                if after_space and data.startswith(" "):
+                    data = data[1:]
+                    if not data:
+                        continue
+                token["data"] = data
+
+            if type in ("Characters", "SpaceCharacters"):
+                if token["data"]:
+                    after_space = not preserve and token["data"].endswith(" ")
+            else:
+                after_space = False
 
             yield token
 
